@@ -64,4 +64,11 @@ MUTANTS = [
  dict(id='C12-timer-dies', file='src/deep/utils.py', old="            except Exception:\n                logging.exception(\n                    \"Repeated function", new="            except ValueError:\n                logging.exception(\n                    \"Repeated function", props=['C12']),
 
  dict(id='C12-custom-dropped-on-update', file='src/deep/config/tracepoint_config.py', old="                listeners.config_change(ts, old_hash, current_hash, old_config, new_config + self._custom)", new="                listeners.config_change(ts, old_hash, current_hash, old_config, new_config + (self._custom if old_hash is None else []))", props=['C12', 'C13']),
+ dict(id='C14-start-ignores-started', file='src/deep/api/deep.py', old="        if self.started:\n            return\n        self.config.plugins", new="        self.config.plugins", props=['C14']),
+ dict(id='C14-restore-sys-only', file='src/deep/processor/trigger_handler.py', old="        sys.settrace(self.__old_sys_trace)\n        threading.settrace(self.__old_thread_trace)", new="        sys.settrace(self.__old_sys_trace)\n        threading.settrace(None)", props=['C14']),
+ dict(id='C14-save-after-install', file='src/deep/processor/trigger_handler.py', old="        self.__old_sys_trace = sys.gettrace()\n", new="        sys.settrace(self.trace_call)\n        self.__old_sys_trace = sys.gettrace()\n", props=['C14']),
+ dict(id='C14-plugin-loop-breaks', file='src/deep/api/deep.py', old="                deep.logging.exception(\"Failed to shutdown plugin %s\", plugin.name)\n", new="                deep.logging.exception(\"Failed to shutdown plugin %s\", plugin.name)\n                break\n", props=['C14', 'C20']),
+ dict(id='C14-poll-not-stopped-on-flush-fail', file='src/deep/api/deep.py', old="            except BaseException:\n                deep.logging.exception(\"Failed to shutdown %s\", name)\n", new="            except BaseException:\n                deep.logging.exception(\"Failed to shutdown %s\", name)\n                break\n", props=['C14']),
+ dict(id='C14-notrace-wipes', file='src/deep/processor/trigger_handler.py', old="        if self._config.NO_TRACE:\n            return\n        sys.settrace(self.__old_sys_trace)", new="        sys.settrace(self.__old_sys_trace)", props=['C14']),
+ dict(id='C14-no-shutdown-flag', file='src/deep/processor/trigger_handler.py', old="        if self._is_shutdown:\n            return None\n", new="", props=['C14']),
 ]
